@@ -186,7 +186,7 @@ type X struct {
 func newX(prop, tier string, shard, nshards int) *X {
 	return &X{Prop: prop, Tier: tier, Shard: shard, NShards: nshards,
 		states: map[uint64]struct{}{}, outcomes: map[uint64]struct{}{}, nontrivial: map[uint64]struct{}{},
-		cntIdx: map[string]int{}, Families: map[string]*FamilyStat{}, KnownHits: map[string]int64{}, maxViol: 3}
+		cntIdx: map[string]int{}, Families: map[string]*FamilyStat{}, KnownHits: map[string]int64{}, maxViol: 1}
 }
 
 func (x *X) Thorough() bool { return x.Tier == "thorough" }
